@@ -119,15 +119,19 @@ def cache_dir(name=None):
     d = os.path.join(CACHE_ROOT, tree_key())
     if not os.path.isdir(d):
         os.makedirs(d, exist_ok=True)
-        # keep the cache small: drop all but the 3 most recent other keys
+        # keep the cache small: drop other keys, oldest first, but never one touched within the last two hours — a concurrent check
+        # (self-test and probe drivers run several trees at once) may be working in it
         try:
+            now = time.time()
             others = sorted((os.path.getmtime(os.path.join(CACHE_ROOT, x)), x) for x in os.listdir(CACHE_ROOT)
                             if x != tree_key() and not x.startswith(('asm-', 'asmobj-')))
             asms = sorted((os.path.getmtime(os.path.join(CACHE_ROOT, x)), x) for x in os.listdir(CACHE_ROOT) if x.startswith('asm-'))
-            for _, x in asms[:-4]:
-                shutil.rmtree(os.path.join(CACHE_ROOT, x), ignore_errors=True)
-            for _, x in others[:-3]:
-                shutil.rmtree(os.path.join(CACHE_ROOT, x), ignore_errors=True)
+            for mt, x in asms[:-4]:
+                if now - mt > 7200:
+                    shutil.rmtree(os.path.join(CACHE_ROOT, x), ignore_errors=True)
+            for mt, x in others[:-3]:
+                if now - mt > 7200:
+                    shutil.rmtree(os.path.join(CACHE_ROOT, x), ignore_errors=True)
         except OSError:
             pass
     return d
